@@ -78,7 +78,8 @@ def c11(tier, seed):
              "with std::io::Cursor over the same plaintext (seek from start/current/end to targets in [0,len], reads, position queries); "
              "one evaluation = one (layer, length) with its set of histories; distinct = distinct (layer, length, seed); non-trivial = at least 2 operations",
         musthit=["musthit:seek_to_len", "musthit:seek_end_len_multiple_of_chunk", "musthit:position_query_in_last_partial_chunk",
-                 "lenclass:enc:len%chunk=0", "lenclass:enc:len<tag", "lenclass:comp:len%block=0"],
+                 "lenclass:enc:len%chunk=0", "lenclass:enc:len<tag", "lenclass:comp:len%block=0",
+                 "musthit:compressed_block_end_next_to_chunk_edge", "musthit:lone_unneeded_final_byte_starts_a_chunk"],
     )
 
 
@@ -162,7 +163,7 @@ def c12(tier, seed):
              "with get_file on a second reader; (b) archives encoded by the independent implementation whose block stream lacks the end-of-data marker "
              "(all blocks, cut at a block edge, cut inside a block) before a valid footer and under valid outer layers: linear_extract must fail; "
              "distinct = distinct case; non-trivial = at least 2 files or a marker-less archive",
-        musthit=["subset:empty", "subset:one", "subset:all", "held:extract", "held:no_marker_refused", "no_marker:all_blocks", "no_marker:cut_inside_block"],
+        musthit=["subset:empty", "subset:one", "subset:all", "reader:after_get_hash", "reader:after_get_file", "reader:after_linear_extract", "held:extract", "held:no_marker_refused", "no_marker:all_blocks", "no_marker:cut_inside_block"],
         assumptions=["marker-less archives have at most 64 files: with 254 (mod 256) files the first footer byte equals the marker byte (format limitation); "
                      "cases where the footer bytes, read as typed blocks by a grammar-only reader, lead to a 0xFE type byte are skipped as format coincidences"],
     )
@@ -174,7 +175,8 @@ def c13(tier, seed):
         rule="fault = transfer schedule: archives are written through destinations accepting 1 / 1..7 / random / <=4095 bytes per call or interrupting every "
              "2nd/3rd call and read back; read and repaired (both modes, intact and cut) through sources returning as few bytes per call, and compared with the "
              "results obtained from memory; distinct = distinct (program, schedule, side); all non-trivial",
-        musthit=["musthit:compress_only_one_byte_source_repair", "write:Interrupt", "write:Max", "read:Max", "held:repair"],
+        musthit=["musthit:compress_only_one_byte_source_repair", "write:Interrupt", "write:Max", "read:Max", "read:StopAt",
+                 "musthit:full_block_whose_last_byte_is_not_needed", "held:repair"],
     )
 
 
@@ -191,12 +193,14 @@ def c14(tier, seed):
 def c09(tier, seed):
     return generic(
         "C09", tier, seed, budgets=(300, 1800),
-        rule="call sequences over {start(fresh|duplicate|empty|65536 B|65537 B), append(open|ended|never-issued id; sizes 0,1,chunk+-1; exact|short|long source), "
+        rule="call sequences over {start(fresh|duplicate|empty|65536 B|65537 B, ascii and multi-byte), append(open|ended|never-issued id; sizes 0,1,chunk+-1, "
+             "or sized so that the next block header straddles a chunk/block edge by -1..17 bytes; exact|short|long source), "
              "end(open|ended|never), add, flush, finalize}: all sequences up to length 3 (quick) / 4 (thorough) and sampled sequences of 6..40 calls on 4 layer combos; "
              "twin writers (W1 gets every call, W2 only those the reference model accepts) are finalized and compared through the reader and the independent decoder; "
              "distinct = distinct (layers, sequence); non-trivial = at least 2 calls",
         musthit=["call:duplicate-name", "call:name-too-long", "call:append-short-source", "call:append-ended-or-unknown-id", "call:finalize-with-open-file",
-                 "call:start-after-finalize", "continued_after_refusal", "twin_comparisons_after_refusal"],
+                 "call:start-after-finalize", "continued_after_refusal", "twin_comparisons_after_refusal",
+                 "musthit:block_header_straddles_layer_edge"],
     )
 
 
